@@ -6,16 +6,16 @@ From LH Require Import Base.Bytes Model.Lexer Model.Ast Model.Scope Model.Global
 Import ListNotations.
 Local Open Scope Z_scope.
 
-Lemma local_vars_shape : forall es nls lc, (length es <= length nls)%nat ->
-  map (fun v => (v_name v, v_loc v)) (local_vars es nls lc) = nls.
+Lemma local_vars_shape il : forall es nls lc, (length es <= length nls)%nat ->
+  map (fun v => (v_name v, v_loc v)) (local_vars es nls lc il) = nls.
 Proof.
   induction es as [|e r IH]; intros nls lc Hlen; cbn [local_vars].
   - rewrite map_map. cbn [v_name v_loc]. induction nls as [|[a b] t IHt]; [reflexivity|]. cbn [map fst snd]. rewrite IHt by (cbn; lia). reflexivity.
   - destruct nls as [|[nm l] nls']; [cbn in Hlen; lia|]. cbn [map v_name v_loc]. rewrite IH by (cbn in Hlen; lia). reflexivity.
 Qed.
 
-Lemma local_vars_ref_at : forall es nls lc i e v,
-  nth_error es i = Some e -> nth_error (local_vars es nls lc) i = Some v -> v_ref v = ref_of_exp e.
+Lemma local_vars_ref_at il : forall es nls lc i e v,
+  nth_error es i = Some e -> nth_error (local_vars es nls lc il) i = Some v -> v_ref v = ref_of_exp e.
 Proof.
   induction es as [|e0 r IH]; intros nls lc i e v He Hv; [destruct i; discriminate|].
   cbn [local_vars] in Hv. destruct nls as [|[nm l] nls']; [destruct i; discriminate|].
@@ -24,8 +24,8 @@ Proof.
   - eapply IH; eauto.
 Qed.
 
-Lemma local_vars_refm ms : forall es nls lc v,
-  In v (local_vars es nls lc) -> refm lc ms -> (forall e, In e es -> incl (m2_exp e) ms) -> refm (v_ref v) ms.
+Lemma local_vars_refm ms il : forall es nls lc v,
+  In v (local_vars es nls lc il) -> refm lc ms -> (forall e, In e es -> incl (m2_exp e) ms) -> refm (v_ref v) ms.
 Proof.
   induction es as [|e r IH]; intros nls lc v Hv Hlc He; cbn [local_vars] in Hv.
   - apply in_map_iff in Hv. destruct Hv as (nl & E & _). subst v. exact Hlc.
@@ -77,17 +77,36 @@ Proof.
   - eexists. rewrite app_assoc. reflexivity.
 Qed.
 
+(* every variable of the statement carries the statement's InitLoc *)
+Lemma local_vars_init il : forall es nls lc v, In v (local_vars es nls lc il) -> v_init v = il.
+Proof.
+  induction es as [|e r IH]; intros nls lc v Hv; cbn [local_vars] in Hv.
+  - apply in_map_iff in Hv. destruct Hv as (nl & <- & _). reflexivity.
+  - destruct nls as [|[n nl] nls']; [destruct Hv|]. destruct Hv as [<-|Hv]; [reflexivity|]. eapply IH; eauto.
+Qed.
+
+(* no table exemption in the fragment *)
+Lemma local_vars_tab il : forall es nls lc v,
+  (forall e, In e es -> tab_of_exp e = None) -> In v (local_vars es nls lc il) -> v_tab v = None.
+Proof.
+  induction es as [|e r IH]; intros nls lc v Ht Hv; cbn [local_vars] in Hv.
+  - apply in_map_iff in Hv. destruct Hv as (nl & <- & _). reflexivity.
+  - destruct nls as [|[n nl] nls']; [destruct Hv|]. destruct Hv as [<-|Hv].
+    + cbn [v_tab]. apply Ht. left. reflexivity.
+    + eapply IH; [|exact Hv]. intros e' He'. apply Ht. right. exact He'.
+Qed.
+
 (* the entries of `local ns = es` named n, when n is protected at index i *)
-Lemma local_entry_of_name ns ls es i e n v :
+Lemma local_entry_of_name il ns ls es i e n v :
   length ns = length ls -> (length es <= length ns)%nat -> nth_error es i = Some e ->
   count_name n ns = 1%nat -> beq_bytes (nth i ns []) n = true ->
-  In v (local_vars es (combine ns ls) RNone) -> beq_bytes (v_name v) n = true ->
+  In v (local_vars es (combine ns ls) RNone il) -> beq_bytes (v_name v) n = true ->
   v_ref v = ref_of_exp e /\ In (v_loc v) ls.
 Proof.
   intros Hlen Hle He Hc Hi Hv Hn.
   apply In_nth_error in Hv. destruct Hv as (j & Hj).
   assert (Hsh : nth_error (combine ns ls) j = Some (v_name v, v_loc v)).
-  { rewrite <- (local_vars_shape es (combine ns ls) RNone) by (rewrite combine_length; lia).
+  { rewrite <- (local_vars_shape il es (combine ns ls) RNone) by (rewrite combine_length; lia).
     rewrite nth_error_map, Hj. reflexivity. }
   destruct (nth_error_combine ns ls j _ _ Hsh) as [Hnj Hlj].
   assert (Hil : (i < length ns)%nat).
@@ -97,10 +116,11 @@ Proof.
   split; [eapply local_vars_ref_at; eauto|eapply nth_error_In; eauto].
 Qed.
 
-Lemma local_names_in ns ls es v :
-  (length es <= length (combine ns ls))%nat -> In v (local_vars es (combine ns ls) RNone) -> In (v_name v) ns.
+Lemma local_names_in il ns ls es v :
+  (length es <= length (combine ns ls))%nat -> In v (local_vars es (combine ns ls) RNone il) -> In (v_name v) ns.
 Proof.
-  intros Hle Hv. pose proof (local_vars_shape es (combine ns ls) RNone Hle) as Hs.
+  intros Hle Hv. pose proof (local_vars_shape il es (combine ns ls) RNone Hle) as Hs.
+
   assert (Hin : In (v_name v, v_loc v) (combine ns ls)).
   { rewrite <- Hs. apply (in_map (fun v => (v_name v, v_loc v))). exact Hv. }
   apply in_combine_l in Hin. exact Hin.
